@@ -184,7 +184,8 @@ func runC17Scenario(c *fw.Ctx, sc c17Scenario, seed int64) {
 				userWrites.add()
 			case bytes.Contains(b, zeros) && addr == "rs1:16020":
 				probeWrites.add()
-			case bytes.Contains(b, []byte("t,k1,:")):
+			case bytes.Contains(b, []byte("t,k1,:")), bytes.Contains(b, []byte{0x22, 0x02, 't', '.'}):
+				// a lookup of (t,k1) or the range scan [t, t.) of CacheRegions
 				metaWrites.add()
 			}
 		}
@@ -323,6 +324,12 @@ func runC17Scenario(c *fw.Ctx, sc c17Scenario, seed int64) {
 	done := make(chan error, 1)
 	go func() {
 		g, _ := hrpc.NewGet(ctx, []byte("t"), []byte("k1"), hrpc.Families(map[string][]string{"echo": {opid}}))
+		if sc.Entry == "cache-regions" {
+			// no context to cancel: the observation ends with Close()
+			time.AfterFunc(sc.Observe, func() { within(3*time.Second, client.Close) })
+			done <- client.CacheRegions([]byte("t"))
+			return
+		}
 		if sc.Entry == "batch" {
 			res, _ := client.SendBatch(ctx, []hrpc.Call{g})
 			done <- res[0].Error
@@ -376,7 +383,7 @@ func init() {
 			"context error promptly). (ii) persistent-failure scenarios {too-busy / call-queue / region-opening forever, abort " +
 			"exception forever, connection dropped on the request, on the probe, dial refused, region never online, meta " +
 			"silent, meta lookup error, ZooKeeper errors; retry-later alternating with not-serving; two connection-level answers then " +
-			"not-serving, repeated} x {single call, batch}: client-side timestamps of consecutive attempts " +
+			"not-serving, repeated} x {single call, batch; CacheRegions for the meta and ZooKeeper scenarios}: client-side timestamps of consecutive attempts " +
 			"must satisfy gap_j >= w_(j-free) with free = 2 only for connection-level failures of a request. distinct = " +
 			"schedule step / scenario x entry point; all non-trivial",
 		Assumptions: []string{"timestamps are taken in the client's goroutines (dialer, Write, ZooKeeper call): only lower bounds are judged"},
@@ -387,7 +394,7 @@ func init() {
 			return fw.Plan{Batches: 2, Parallel: 2, Timeout: 6 * time.Minute}
 		},
 		Floors: func(tier string) map[string]int64 {
-			return map[string]int64{"schedule_steps_verified": 10, "scenarios": 22, "gaps_checked": 100, "attempts_observed": 120}
+			return map[string]int64{"schedule_steps_verified": 10, "scenarios": 25, "gaps_checked": 100, "attempts_observed": 120}
 		},
 		Run: func(c *fw.Ctx) {
 			maxStep := 8200 * time.Millisecond
@@ -406,7 +413,11 @@ func init() {
 				"drop-on-probe", "dial-refused", "region-never-online", "meta-silent", "meta-lookup-error", "zookeeper-errors"}
 			k := 0
 			for _, n := range names {
-				for _, e := range []string{"get", "batch"} {
+				entries := []string{"get", "batch"}
+				if n == "meta-silent" || n == "meta-lookup-error" || n == "zookeeper-errors" {
+					entries = append(entries, "cache-regions")
+				}
+				for _, e := range entries {
 					k++
 					if k%c.NBatches != c.Batch {
 						continue
